@@ -235,7 +235,7 @@ fn dec_obs(imp: &str) -> Option<Obs> {
 
 fn is_true(v: &str) -> bool {
     let l = v.to_lowercase();
-    !(l.is_empty() || l == "0" || l == "false" || l == "no")
+    !(l.is_empty() || l == "0" || l == "false" || l == "no" || l == "yes")
 }
 
 /// instruction index ↦ (text of the line, 1-based line number, source) — one instruction per
@@ -243,7 +243,7 @@ fn is_true(v: &str) -> bool {
 fn layout(r: &Req) -> Vec<(String, usize, Option<String>)> {
     let mut out = vec![];
     for (k, line) in r.text.lines().enumerate() {
-        out.push((line.to_string(), k + 2, r.src.clone()));
+        out.push((line.to_string(), k + 1, r.src.clone()));
         let t = line.trim();
         if let (Some(rest), Some((n, inc_text))) = (t.strip_prefix("!include_files "), &r.inc) {
             if r.src.is_some() && rest.trim() == n {
@@ -330,12 +330,22 @@ fn check(r: &Req, o: &Obs) -> Result<(), String> {
         } else if name == "probe" && !args.is_empty() && !has_gn {
             match args[0].as_str() {
                 "F" => {
+                    // the announcement must be followed by the announced switch
+                    let p = lay.get(*line).map(|x| x.0.trim().strip_prefix("probe F").unwrap_or("?").trim().to_string());
+                    let nx = lay.get(*line + 1).map(|x| {
+                        let t = x.0.trim();
+                        let t = t.strip_prefix("w = ").unwrap_or(t);
+                        t.strip_prefix("set_exit_on_error").or_else(|| t.strip_prefix("exit_on_error")).unwrap_or("??").trim().to_string()
+                    });
+                    if p.is_none() || p != nx {
+                        return Ok(());
+                    }
                     if args.len() >= 2 {
                         fatal = is_true(&args[1]);
                     }
                 }
                 "M" | "A" => {
-                    if *line < 4 {
+                    if *line < 4 || !is_group(&lay, *line - 4, &[args[0].as_str()]) {
                         continue;
                     }
                     let (lt, st, _, _) = pos(*line - 4);
@@ -491,7 +501,7 @@ fn gen_element(rng: &mut Rng, out: &mut Vec<String>, ind: &str, allow_labels: bo
         }
         16 => out.push(format!("{}{} = {}", ind, rng.pick_s(&["y", "z"]), rng.pick_s(&["get_last_error", "get_last_error_line", "get_last_error_source", "exit_on_error"]))),
         17 if full_sdk => {
-            let c = rng.pick_s(&["array_push nothandle 1", "substring abc 9", "array_pop nothandle", "x = calc 1 +", "map_put nomap k v", "x = array_is_empty nothandle", "x = substring abc 9", "read_properties", "x = set_contains nothandle v"]);
+            let c = rng.pick_s(&["array_push nothandle 1", "substring abc 9", "array_pop nothandle", "x = calc 1 +", "map_put nomap k v", "x = array_is_empty nothandle", "x = substring abc 9", "read_properties", "x = set_contains nothandle v", "x = base64", "x = array_join nothandle ,", "array_is_empty nothandle"]);
             push_group(out, ind, c.to_string(), "probe A ${e} ${l} ${s}".to_string());
         }
         18 if !full_sdk && rng.chance(1, 4) => out.push(format!("{}nope arg", ind)),
@@ -623,7 +633,7 @@ fn gen_b(rng: &mut Rng) -> Case {
     gen_block(rng, &mut lines, "", 0, &fn_names);
     let text = lines.join("\n");
     let total_lines = lines.len() + inc.as_ref().map(|(_, t)| t.lines().count()).unwrap_or(0);
-    let qn = rng.below(16);
+    let qn = if rng.chance(1, 8) { rng.below(4) } else { 6 + rng.below(26) };
     let queue = gen_queue(rng, qn, total_lines, false, false);
     let vars = gen_vars(rng);
     let n_err = queue.iter().filter(|q| q.starts_with("E/")).count();
@@ -696,7 +706,7 @@ impl Prop for C10Prop {
         }
         if r.op == "errb" {
             match check(&r, &o) {
-                Ok(()) => "REL".to_string(),
+                Ok(()) => if std::env::var("C10_SHOW").is_ok() { format!("REL :: {}", enc_obs(&o)) } else { "REL".to_string() },
                 Err(why) => format!("REL-VIOLATED {} :: {}", why.replace(' ', "_"), enc_obs(&o)),
             }
         } else {
